@@ -1,7 +1,7 @@
 (** C12 — malformed AML is rejected with an error, never a crash, hang or stray pointer.
     Statements only; every proof is [exact <lemma>] (Aml/LexProofs.v). *)
 From Coq Require Import NArith List.
-From FF Require Import Lib.Word Gen.Consts_device_acpi_aml Aml.Stream Aml.Lex Aml.LexProofs Aml.Tree Aml.TreeSpec Aml.Parser Aml.ParserProofs Aml.ParserProofsTop Aml.ParserTotalFirst Aml.ParserTotalConn Aml.ParserTotalTop Aml.ParserTotalNonNamed Aml.ParserTotalCalls Aml.ParserTotalReloc Aml.ParserTotalMerge Aml.ParserTotalResolve Aml.ParserTotalBase Aml.ParserTotalLex Aml.ParserTotalTree Aml.ParserTotalDefer Aml.ParserTotalDeferW Aml.ParserTotalDeferV Aml.ParserTotalTyped Aml.ParserTotalShape Aml.ParserTotalChain Aml.ParserTotalConn2 Aml.ParserTotalPass2 Aml.ParserTotalBenign Aml.ParserTotalFirst2 Aml.ParserTotalPass1.
+From FF Require Import Lib.Word Gen.Consts_device_acpi_aml Aml.Stream Aml.Lex Aml.LexProofs Aml.Tree Aml.TreeSpec Aml.Parser Aml.ParserProofs Aml.ParserProofsTop Aml.ParserTotalFirst Aml.ParserTotalConn Aml.ParserTotalTop Aml.ParserTotalNonNamed Aml.ParserTotalCalls Aml.ParserTotalReloc Aml.ParserTotalMerge Aml.ParserTotalResolve Aml.ParserTotalBase Aml.ParserTotalLex Aml.ParserTotalTree Aml.ParserTotalDefer Aml.ParserTotalDeferW Aml.ParserTotalDeferV Aml.ParserTotalTyped Aml.ParserTotalShape Aml.ParserTotalChain Aml.ParserTotalConn2 Aml.ParserTotalPass2 Aml.ParserTotalBenign Aml.ParserTotalFirst2 Aml.ParserTotalNameLex Aml.ParserTotalGoodPath Aml.ParserTotalPass1.
 Import ListNotations.
 Local Open Scope N_scope.
 
@@ -639,7 +639,8 @@ Theorem C12_parse_total_partial_first_pass_shape :
     (forall i o, TreeSpec.get tree i = Some o -> o_opcode o <> opFreed -> opInfo (o_infoIndex o) <> None) ->
     glive g 0 -> groot g 0 ->
     (exists o, TreeSpec.get tree 0 = Some o /\ o_opcode o = aml_pOpIntScopeBlock) ->
-    TM2 tree g -> (forall i o, TreeSpec.get tree i = Some o -> o_tableHandle o <> handle) ->
+    TM2 tree g -> (forall i o, TreeSpec.get tree i = Some o -> o_opcode o <> opFreed) ->
+    (forall i o, TreeSpec.get tree i = Some o -> o_tableHandle o <> handle) ->
     image_small data ->
     N.of_nat (length (t_pool tree)) + 4 * N.of_nat (length data) + 4 <= InvalidIndex ->
     match first_pass fuel (init_state tree earlier handle data) with
@@ -653,31 +654,46 @@ Theorem C12_parse_total_partial_first_pass_shape :
 Proof. exact first_pass_establishes. Qed.
 Print Assumptions C12_parse_total_partial_first_pass_shape.
 
-(** [parse_total] END TO END, modulo two facts about NAMES: ParseAML (parseAML_body with any fuel, all six passes) from the initial
-    state of any table over any pool with [R], valid indexes, a live parentless ScopeBlock root, typed Methods (TM2), []byte-typed
-    name-path-or-call objects, slices inside the earlier tables, no object with the handle of the new table, and the explicit
-    (generous, quadratic) memory bound NEVER panics, and when it returns the pool satisfies [R], valid indexes and slices-inside -
-    PROVIDED that in the state the first pass produces ([NAMEOK]) (1) the name field of every Scope directive of the new table has
-    no lead character (newObject keeps the name of a reused free slot; true whenever the free slots carry no names), and (2) the
-    []byte of every name-path object is a good path (a four-byte path starts with a name character, \ or ^ - a property of
-    parseNameString).  These two facts are the ONLY missing lemmas of the unconditional theorem; everything else - the typing of
-    Methods, the Scope-directive structure, parents of pending objects, the []byte typing, existence and bound of the walk count,
-    reader / stack / pool-size facts - is derived and chained through all passes.  Fuel exhaustion is not excluded. *)
-Theorem C12_parse_total_nopanic_if_names :
+(** A lexer fact used below: the []byte parseNameString returns, when it is four bytes long, starts at a byte of the table that
+    is a lead name character, the root character or a parent prefix. *)
+Theorem C12_parse_total_namestring_good :
+  forall (r : reader) (s : slice) (ok : bool) (r1 : reader),
+    rok r -> parseNameString r = Ok (s, ok, r1) ->
+    s_len s = 4 -> exists p b0, s_ptr s = Some p /\ byte_at (r_data r) p = Some b0 /\ (is_lead b0 = true \/ b0 = 0x5c \/ b0 = 0x5e).
+Proof. exact parseNameString_good. Qed.
+Print Assumptions C12_parse_total_namestring_good.
+
+(** [parse_total] END TO END: ParseAML (parseAML_body with ANY fuel, all six passes) from the initial state of any table over any
+    pool NEVER panics, and when it returns the pool satisfies [R], valid indexes and slices-inside.  The hypotheses speak only about
+    the pool BEFORE the call and about sizes - nothing about the run:
+      - [R], valid opcode-table indexes, a live parentless ScopeBlock root in slot 0;
+      - the Methods already in the pool are typed (TM2: a name-path, a byte constant, no pending flags - what an earlier ParseAML leaves);
+      - no free slot (newObject keeps the NAME of a reused free slot, and mergeScopeDirectives reads that name: with a stale
+        name in a free slot the Go code can index out of range; a first table and any pool that was only ever appended to satisfy this);
+      - every name-path-or-call object carries a []byte, every name-path object a good path (a four-byte path starts with a name
+        character, \ or ^), the slices of the pool lie inside the earlier tables;
+      - no object carries the handle of the new table; the image is a table image of at most 2^28 bytes;
+      - an explicit (generous, quadratic) memory bound: pool slots + 4 * image bytes, times (8 * image bytes + 3), below 2^32 - 1.
+    Everything else - the typing of new Methods, the Scope-directive structure and its names, the good paths the lexer produces,
+    parents of pending objects, the []byte typing, existence and bound of the walk count, reader / stack / pool-size facts - is
+    derived and chained through all passes.  Fuel exhaustion is not excluded. *)
+Theorem C12_parse_total_never_panics :
   forall (tree : T) (g : ghost) (earlier : list (list N)) (handle : N) (data : list N) (fuel : nat),
     R tree g ->
     (forall i o, TreeSpec.get tree i = Some o -> o_opcode o <> opFreed -> opInfo (o_infoIndex o) <> None) ->
     glive g 0 -> groot g 0 ->
     (exists o, TreeSpec.get tree 0 = Some o /\ o_opcode o = aml_pOpIntScopeBlock) ->
     TM2 tree g ->
+    (forall i o, TreeSpec.get tree i = Some o -> o_opcode o <> opFreed) ->
     (forall i o, TreeSpec.get tree i = Some o -> o_opcode o <> opFreed -> o_opcode o = aml_pOpIntNamePathOrMethodCall ->
                  exists tbl sl, o_value o = Some (VBytes tbl sl)) ->
+    (forall n no tbl sl, TreeSpec.get tree n = Some no -> o_opcode no = aml_pOpIntNamePath -> o_value no = Some (VBytes tbl sl) ->
+       forall s0 bytes, p_tables s0 = earlier ++ [data] -> slice_bytes s0 tbl sl = Ok bytes -> good_path bytes) ->
     pool_ok earlier tree ->
     (forall i o, TreeSpec.get tree i = Some o -> o_tableHandle o <> handle) ->
     image_small data ->
     (let L := N.of_nat (length (t_pool tree)) + 4 * N.of_nat (length data) + 2 in
      L + L * (8 * N.of_nat (length data) + 3) + 4 <= InvalidIndex) ->
-    (forall s1, first_pass fuel (init_state tree earlier handle data) = Ok (ROk, s1) -> NAMEOK s1) ->
     match parseAML_body fuel (init_state tree earlier handle data) with
     | Ok (_, s') => exists g', R (p_tree s') g' /\
         (forall i o, TreeSpec.get (p_tree s') i = Some o -> o_opcode o <> opFreed -> opInfo (o_infoIndex o) <> None) /\
@@ -685,5 +701,33 @@ Theorem C12_parse_total_nopanic_if_names :
     | Panic => False
     | OutOfFuel => True
     end.
-Proof. exact parseAML_body_never_panics_if_names. Qed.
-Print Assumptions C12_parse_total_nopanic_if_names.
+Proof. exact parseAML_body_never_panics. Qed.
+Print Assumptions C12_parse_total_never_panics.
+
+(** the same for [parseAML] itself (the model's entry point, with the fuel it passes) *)
+Theorem C12_parse_total_parseAML_never_panics :
+  forall (tree : T) (g : ghost) (earlier : list (list N)) (handle : N) (data : list N),
+    R tree g ->
+    (forall i o, TreeSpec.get tree i = Some o -> o_opcode o <> opFreed -> opInfo (o_infoIndex o) <> None) ->
+    glive g 0 -> groot g 0 ->
+    (exists o, TreeSpec.get tree 0 = Some o /\ o_opcode o = aml_pOpIntScopeBlock) ->
+    TM2 tree g ->
+    (forall i o, TreeSpec.get tree i = Some o -> o_opcode o <> opFreed) ->
+    (forall i o, TreeSpec.get tree i = Some o -> o_opcode o <> opFreed -> o_opcode o = aml_pOpIntNamePathOrMethodCall ->
+                 exists tbl sl, o_value o = Some (VBytes tbl sl)) ->
+    (forall n no tbl sl, TreeSpec.get tree n = Some no -> o_opcode no = aml_pOpIntNamePath -> o_value no = Some (VBytes tbl sl) ->
+       forall s0 bytes, p_tables s0 = earlier ++ [data] -> slice_bytes s0 tbl sl = Ok bytes -> good_path bytes) ->
+    pool_ok earlier tree ->
+    (forall i o, TreeSpec.get tree i = Some o -> o_tableHandle o <> handle) ->
+    image_small data ->
+    (let L := N.of_nat (length (t_pool tree)) + 4 * N.of_nat (length data) + 2 in
+     L + L * (8 * N.of_nat (length data) + 3) + 4 <= InvalidIndex) ->
+    match parseAML tree earlier handle data with
+    | Ok (_, s') => exists g', R (p_tree s') g' /\
+        (forall i o, TreeSpec.get (p_tree s') i = Some o -> o_opcode o <> opFreed -> opInfo (o_infoIndex o) <> None) /\
+        pool_ok (p_tables s') (p_tree s')
+    | Panic => False
+    | OutOfFuel => True
+    end.
+Proof. exact parseAML_never_panics. Qed.
+Print Assumptions C12_parse_total_parseAML_never_panics.
